@@ -41,9 +41,9 @@ Definition enc_full (parts : list (string * string)) : string :=
 (* OversizedMessage: len(b) > MaxGossipPacketSize/2 *)
 Definition oversized_len (n : Z) : bool := MaxGossipPacketSize / 2 <? n.
 
-(* capacity of Channel.msgc: `make(chan []byte, 200)` in NewChannel. A literal inside a function body, which the
-   constants translator cannot name; the harness measures it on the real Channel on every run. *)
-Definition oversize_queue_cap : Z := 200.
+(* The capacity of Channel.msgc (`make(chan []byte, N)` in NewChannel) is a PARAMETER of the model (qcap below): the
+   property only says the oversize queue is bounded and every drop is counted; how long the queue is, is tuning.
+   The harness measures it on the real Channel on every run and the cases supply it. *)
 
 (* ---------- parameters ---------- *)
 
@@ -67,6 +67,7 @@ Section Gossip.
 Context {B W ST : Type}.
 Variable wi : wire B W.
 Variable ops : stateops B ST.
+Variable qcap : Z.                  (* capacity of the oversize queue *)
 
 (* ================= Channel ================= *)
 
@@ -92,7 +93,7 @@ Definition broadcast (c : chan) (b : B) : chan * list cev :=
   | None => (c, [])
   | Some w =>
       if oversized_w w then
-        if Z.of_nat (length (ch_queue c)) <? oversize_queue_cap
+        if Z.of_nat (length (ch_queue c)) <? qcap
         then (mkChan (ch_key c) (ch_queue c ++ [w]) (ch_busy c) (ch_dropped c) (ch_sent c) (ch_failed c), [])
         else (mkChan (ch_key c) (ch_queue c) (ch_busy c) (ch_dropped c + 1) (ch_sent c) (ch_failed c), [])
       else (c, [ESend w])
